@@ -422,6 +422,11 @@ static bool checkHull(HullCtx& h, const Manifold& hull) {
   const std::vector<vec3>& in = cl.p;
   // key tail: regime, input kind and generator family (coordinate free)
   std::string base = cl.fam.substr(0, cl.fam.find("+dups"));
+  // the families that contain exactly (or to rounding) collinear triples on the hull boundary by construction share
+  // one key class: the open QuickHull finding (garbage plane of a face through three collinear points) is keyed on it,
+  // every other family keeps its own name (the family is always in the witness detail)
+  for (const char* f : {"rings", "rulings", "lattice-block", "simplex-lattice", "cube-surface", "manifolds+refined-copy"})
+    if (base == f) base = "collinear-by-construction";
   const std::string fam = (cl.regime == 2 ? "degen:" : cl.regime == 1 ? "thin:" : "thick:") + h.via + ":" + base;
   c.count("hulls_observed");
   if (const char* dump = getenv("C16_DUMP")) {  // debugging aid for replays: all input points, exact
